@@ -577,9 +577,10 @@ Lemma insert_into_by_name ttfs tsc tstore t n0 rest c0 :
   NoDup (epoch_name :: map fst tsc) ->
   (forall n, In n (epoch_name :: map fst tsc) -> In n (t_names t) /\ exists c, t_get n t = Some c) ->
   t_names t = n0 :: rest -> t_get n0 t = Some c0 -> c0 <> [] ->
+  forallb (fun c => match c with VI _ => true | _ => false end) (view_col (t_view t) epoch_name) = true ->
   insert_into ttfs tsc tstore (epoch_name :: map fst tsc) t = Ok (spec_insert ttfs tsc tstore (t_view t)).
 Proof.
-  intros Hnd Hpres En0 Gn0 Hc0. unfold insert_into. rewrite En0, Gn0.
+  intros Hnd Hpres En0 Gn0 Hc0 HVI. unfold insert_into. rewrite En0, Gn0.
   replace (List.length c0 =? 0)%nat with false by (symmetry; apply Nat.eqb_neq; destruct c0; [contradiction | simpl; lia]).
   set (tn := epoch_name :: map fst tsc) in *.
   assert (Hmem : forallb (fun n => existsb (String.eqb n) (n0 :: rest)) tn = true).
@@ -596,12 +597,12 @@ Proof.
   replace (forallb (fun n => existsb (String.eqb n) tn) tn) with true
     by (symmetry; apply forallb_forall; intros n Hn; apply existsb_eqb_in; exact Hn).
   cbn [andb negb]. unfold tn at 1. rewrite String.eqb_refl. cbn [negb].
-  unfold spec_insert, write_rows. f_equal.
   assert (Hg : forall n, In n tn -> match t_get n (t_project tn t) with Some c => c | None => [] end = view_col (t_view t) n).
   { intros n Hn. rewrite (project_get tn t n Hex).
     replace (existsb (String.eqb n) tn) with true by (symmetry; apply existsb_eqb_in; exact Hn).
     symmetry. apply view_col_get. apply Hpres. exact Hn. }
-  rewrite (Hg epoch_name) by (left; reflexivity).
+  rewrite (Hg epoch_name) by (left; reflexivity). rewrite HVI. cbn [negb].
+  unfold spec_insert, write_rows. f_equal.
   replace (map (fun n => match t_get n (t_project tn t) with Some c => c | None => [] end) (map fst tsc))
     with (map (view_col (t_view t)) (map fst tsc)); [reflexivity|].
   apply map_ext_in. intros n Hn. symmetry. apply Hg. right. exact Hn.
@@ -652,6 +653,37 @@ Lemma col_of_valid_length sc R n : In n (epoch_name :: map fst sc) -> List.lengt
 Proof.
   intros H. rewrite <- getters_names in H. destruct (assoc_in _ _ H) as [f Hf].
   rewrite col_of_getter, Hf. apply map_length.
+Qed.
+
+Lemma assoc_find_out (l : list sel_item) (f : sel_item -> option (list cell)) n :
+  assoc n (map (fun it => (out_name it, f it)) l)
+  = match find (fun it => String.eqb (out_name it) n) l with Some it => Some (f it) | None => None end.
+Proof.
+  induction l as [|it l IH]; simpl; [reflexivity|]. destruct (String.eqb (out_name it) n); [reflexivity | exact IH].
+Qed.
+
+Lemma col_of_epoch sc R : col_of sc R epoch_name = map (fun r => VI (r_epoch r)) R.
+Proof. rewrite col_of_getter. unfold getters. cbn [assoc]. rewrite String.eqb_refl. reflexivity. Qed.
+
+Lemma view_epoch_cells sc R s :
+  match sel_type sc s epoch_name with
+  | Some _ => match s with
+              | SelAll => true
+              | SelList l => String.eqb (match find (fun it => String.eqb (out_name it) epoch_name) l with
+                                         | Some it => fst it | None => EmptyString end) epoch_name
+              end
+  | None => false
+  end = true ->
+  forallb (fun c => match c with VI _ => true | _ => false end) (view_col (view_of sc R s) epoch_name) = true.
+Proof.
+  intros H. unfold view_col. destruct s as [|l]; cbn [view_of].
+  - cbn [map assoc]. rewrite String.eqb_refl. rewrite col_of_epoch. apply forallb_forall.
+    intros c Hc. apply in_map_iff in Hc. destruct Hc as (r & <- & _). reflexivity.
+  - rewrite (assoc_find_out l (fun it => Some (col_of sc R (fst it)))).
+    unfold sel_type in H. destruct (find (fun it => String.eqb (out_name it) epoch_name) l) as [it|]; [|discriminate H].
+    cbn [option_map] in H. destruct (if String.eqb (fst it) epoch_name then Some ET_INT64 else col_type (fst it) sc); [|discriminate H].
+    apply String.eqb_eq in H. rewrite H, col_of_epoch. apply forallb_forall.
+    intros c Hc. apply in_map_iff in Hc. destruct Hc as (r & <- & _). reflexivity.
 Qed.
 
 Lemma view_of_head sc R s : sel_wf sc s = true ->
@@ -710,6 +742,8 @@ Proof.
           destruct (sel_type sc s k) as [ty'|] eqn:ET; [|discriminate Htypes]. eapply sel_type_in. exact ET. }
       split; [exact Hin | apply Hget; exact Hin].
     + intros E. pose proof (col_of_valid_length sc (r0 :: R') p0 Hp0) as L. rewrite E in L. discriminate L.
+    + (* the column named Epoch is the source's Epoch column: int64 cells *)
+      rewrite HV. apply view_epoch_cells. exact Hep.
 Qed.
 
 (** what querying the target afterwards returns: a sorted slot map in which slot e' holds the values of the
